@@ -1698,4 +1698,10 @@ example : ∀ f ∈ ([⟨"k", 0, true⟩, ⟨"a", 1, true⟩, ⟨"b", 0, true⟩
 example : How.LEFT_SEMI_JOIN = How.LEFT_SEMI_JOIN := how_texts_distinct _ _ rfl
 end EquivC13
 
+-- NO-HYPOTHESES: PysparklingVerif.Extracted.C06.stages_are_model
+-- NO-HYPOTHESES: PysparklingVerif.Extracted.C06.lineage_is_build
+-- NO-HYPOTHESES: PysparklingVerif.Extracted.C06.takeHandler_is_takeChain
+-- NO-HYPOTHESES: PysparklingVerif.Extracted.C06.firstHandler_is_takeChain
+-- NO-HYPOTHESES: PysparklingVerif.Extracted.C06.isEmpty_calls
+
 end PysparklingVerif.NonVacuity
